@@ -5,15 +5,23 @@
 (* New state: frozen (cells whose formula was removed: they keep the value *)
 (* they had at trim time) and trim (<<>> before, <<I, O>> after the call). *)
 (* Trim(I, O) is written like the code:                                    *)
-(*   1. build the graph for the outputs (_gen_graph)                       *)
+(*   1. build the graph for the outputs (_gen_graph): the new cells have   *)
+(*      their stored result or no value, nothing is calculated but ranges  *)
 (*   2. walk the dependants of every input node -- and of the cells of an  *)
-(*      input range -- over dep_graph edges: the needed cells              *)
+(*      input range, whether the range is a node of the graph or not --    *)
+(*      over dep_graph edges: the needed cells                             *)
 (*   3. walk the precedents of every output: a precedent that is neither   *)
-(*      needed nor a range is frozen (and the walk stops there)            *)
+(*      needed nor a range is frozen (and the walk stops there); a cell    *)
+(*      without a value is calculated before its formula is dropped: "the  *)
+(*      value it had at trim time" is the value of the cell in the sheet   *)
+(*      at that time, whether some evaluate() had asked for it or not      *)
 (*   5. every cell that is neither needed nor frozen is deleted from the   *)
 (*      cell map (ranges that do not depend on an input are deleted too:   *)
 (*      they are rebuilt from their frozen members on demand); the         *)
 (*      dependency graph is NOT trimmed.                                   *)
+(* Trim is enabled in every state before the trim: right after the load,   *)
+(* after evaluations of any nodes (outputs or not) and after assignments,  *)
+(* with outputs (and precedents of outputs) that were never evaluated.     *)
 (* After Trim only the inputs are assigned and only the outputs evaluated. *)
 (* Property (TrimEquiv): every value an output evaluation returns is       *)
 (* Fresh(output, inp) of the UNTRIMMED sheet.                              *)
@@ -33,7 +41,7 @@ RECURSIVE AncF(_, _)
 AncF(n, fz) == {n} \cup UNION {AncF(p, fz) : p \in PrecF(n, fz)}
 
 RECURSIVE NeededF(_, _, _)
-NeededF(x, c, fz) == IF c[x] # NoneV \/ x \in fz THEN {}
+NeededF(x, c, fz) == IF ~NoVal(c[x]) \/ x \in fz THEN {}
                      ELSE {x} \cup UNION {NeededF(p, c, fz) : p \in PrecMap[x]}
 
 (* _gen_graph + _process_gen_graph for a set of seeds, no _evaluate *)
@@ -42,7 +50,8 @@ BuildStep(st, seeds, fz) ==
       c0 == [x \in Nodes |->
                IF x \notin B THEN st.cache[x]
                ELSE IF x \in Inputs THEN inp[x]
-               ELSE IF x \in Formulas /\ Src = "Stored" /\ ~changed THEN Stored(x)
+               ELSE IF x \in Formulas /\ Src = "Stored" /\ ~changed THEN StoredRead(x)
+               ELSE IF x \in Formulas /\ ~changed THEN UnkV    \* nothing stored: "read as None"
                ELSE NoneV]
       need == UNION {NeededF(r, c0, fz) : r \in B \cap (Ranges \cup Aliases)}
   IN  [built |-> st.built \cup B, cache |-> FillLevels(c0, need, 1),
@@ -54,7 +63,7 @@ BuildStep(st, seeds, fz) ==
 RECURSIVE MissingNeeded(_, _, _)
 MissingNeeded(x, st, fz) ==
   IF x \notin st.built THEN {x}
-  ELSE IF st.cache[x] # NoneV \/ x \in fz THEN {}
+  ELSE IF ~NoVal(st.cache[x]) \/ x \in fz THEN {}
   ELSE UNION {MissingNeeded(q, st, fz) : q \in PrecMap[x]}
 
 EvalStepF(st, n, fz) ==
@@ -73,8 +82,12 @@ TEvaluate(n) ==
   /\ act' = [op |-> "evaluate", n |-> n]
   /\ UNCHANGED <<inp, changed, frozen, trim>>
 
+\* a range given by its corners: the cells of such an input are inputs, also
+\* when no formula reads the range as a range (then it is no node of the graph)
+PlainRange(x) == x \in Ranges /\ Def[x].kind = "Range"
+
 InputCells(I) == (I \cap Inputs) \cup
-                 UNION {Members(r) \cap Inputs : r \in {x \in I \cap Ranges : Def[x].kind = "Range"}}
+                 UNION {Members(r) \cap Inputs : r \in {x \in I : PlainRange(x)}}
 
 TSetValue(a, v) ==
   /\ trim # <<>> => a \in InputCells(trim[1])
@@ -103,20 +116,25 @@ InGraph(x, e) == x \in Formulas \cup Ranges \cup Aliases
 
 Trim(I, O) ==
   /\ trim = <<>>
-  /\ \A o \in O : o \in built /\ cache[o] # NoneV       \* outputs were evaluated
-  /\ LET st     == BuildStep(Cur, O, frozen)
-         starts == I \cup UNION {Members(r) : r \in {x \in I \cap Ranges : Def[x].kind = "Range"}}
+  /\ LET st     == BuildStep(Cur, O, frozen)      \* builds, does not calculate the outputs
+         starts == I \cup UNION {Members(r) : r \in {x \in I : PlainRange(x)}}
          needed0 == Dependants(starts \cap st.built, {}, st.edges) \cup O
-         kids   == Reached(O, {}, needed0, frozen) 
+         kids   == Reached(O, {}, needed0, frozen)
          newfz  == {k \in kids : k \notin needed0 /\ ~IsRangeAddr(k)}
          \* the cell mapping an unbounded range onto its bounded range is kept:
          \* a reloaded model needs it to resolve the range
          \* and so is the range of an array formula (nothing else holds its formula)
          keep   == needed0 \cup newfz \cup (kids \cap Aliases)
                      \cup {k \in kids \cap Ranges : Def[k].kind = "CSE"}
-     IN  /\ \A i \in I : i \in st.built /\ (InGraph(i, st.edges) \/ i \in O)
+         \* a cell which has no value yet is calculated before it is frozen
+         c1     == FillLevels(st.cache,
+                              UNION {NeededF(k, st.cache, frozen) : k \in newfz \cap Formulas}, 1)
+     IN  \* an input is a node of the graph (the code raises otherwise), or a
+         \* range nobody reads as a range: the cells of it which are built count
+         /\ \A i \in I : /\ i \in st.built \/ PlainRange(i)
+                         /\ InGraph(i, st.edges) \/ i \in O
          /\ built' = st.built \cap keep
-         /\ cache' = [x \in Nodes |-> IF x \in st.built \cap keep THEN st.cache[x] ELSE NoneV]
+         /\ cache' = [x \in Nodes |-> IF x \in st.built \cap keep THEN c1[x] ELSE NoneV]
          /\ edges' = st.edges
          /\ frozen' = frozen \cup (newfz \cap Formulas)
   /\ trim' = <<I, O>>
@@ -135,9 +153,9 @@ TSpec == TInit /\ [][TNext]_tvars
 (* the property *)
 TrimEquiv == act.op = "evaluate" => ret = Fresh(act.n, inp)
 CoherentT == LET f == FreshAll(inp) IN
-  \A n \in built \ Inputs : cache[n] # NoneV => cache[n] = f[n]
+  \A n \in built \ Inputs : ~NoVal(cache[n]) => cache[n] = f[n]
 InputsMirrorT == \A a \in built \cap Inputs : cache[a] = inp[a]
-FrozenHaveValues == \A x \in frozen : x \in built => cache[x] # NoneV
+FrozenHaveValues == \A x \in frozen : x \in built /\ ~NoVal(cache[x])
 
 TStateJson(i, b, c, e, ch, fz, tr) ==
   [inp |-> i, built |-> b, cache |-> [x \in b |-> c[x]], edges |-> e, changed |-> ch,
